@@ -6,7 +6,8 @@
    (ProofsDiv: eqv_ring, divmodin_identity, mul_eqv, subin_eqv, div_s_eqv, setdegree_eqv); the degree laws
    (deg respects equality, deg (c*x) = deg c + deg x via the leading coefficient of the schoolbook product) are proved below. *)
 From Coq Require Import ZArith Lia Bool List Ring Setoid Morphisms Arith.
-From C08 Require Import Model Spec ProofsBasic ProofsDiv.
+From C08 Require Import Model Spec ProofsBasic ProofsDiv ProofsDivDeg Fp ProofsFp.
+From Coq Require Import Znumtheory.
 From C08 Require ProofsProps.
 From C11 Require Import PolyModel PolyProofs.
 Import ListNotations.
@@ -245,6 +246,20 @@ Section ListInst.
              unit_of l_divlead_ok l_unit_inv l_unit_deg).
   Qed.
 
+  (* termination within the fuel deg P + deg M + 4: C08's degree bound of the Newton-inverse division (ProofsDivDeg) *)
+  Hypothesis Hs : (1 <= sthr)%nat.
+  Lemma nz_isZero b : ~ eqv b [] -> isZero D b = false.
+  Proof.
+    intros NE. destruct (isZero D b) eqn:E; [|reflexivity]. exfalso. apply NE. constructor. apply (isZero_spec D OK). exact E.
+  Qed.
+  Lemma l_ratrecon_total P M dk : (0 <= dk)%Z -> pratrecon Ops P M dk <> None.
+  Proof.
+    intros Hdk.
+    refine (poly_ratrecon_total (list T) eqv [] Ops deg_proper eq_refl l_assign_ok _ _ P M dk Hdk (deg_ge_m1 M)).
+    - intros a b NE. cbn [pdivmod pdeg LOps]. apply (divmodin_degree D OK kthr sthr Hk Hs). apply nz_isZero. exact NE.
+    - intros x NE. destruct (nz_lead x NE) as (d & Hd & _). cbn [pdeg LOps]. lia.
+  Qed.
+
   (* what the harness prints: the pair after setdegree *)
   Lemma lout_sound (r : option (bool * list T * list T)) P M dk N Dn :
     (forall N0 D0, r = Some (true, N0, D0) ->
@@ -315,3 +330,96 @@ Example list_hyps_example :
   FieldOK ProofsProps.GF2Dom /\
   lratrecon5 ProofsProps.GF2Dom 50 50 [true; true] [false; false; true] 0 = Some (true, [true], [true; true]).
 Proof. split; [exact ProofsProps.GF2_ok|vm_compute; reflexivity]. Qed.
+
+(* the list instance never runs out of fuel (both thresholds >= 1): the soundness theorems above are not vacuous for lack of fuel *)
+Definition List_ratrecon_total : Prop :=
+  forall (T : Type) (D : Dom T), FieldOK D -> forall kthr sthr : nat, (1 <= kthr)%nat -> (1 <= sthr)%nat ->
+  forall (P M : list T) (dk : Z) (fr : bool), 0 <= dk ->
+    lratrecon5 D kthr sthr P M dk <> None /\ lratreconcheck D kthr sthr P M dk <> None /\ lratrecon6 D kthr sthr P M dk fr <> None.
+Lemma list_ratrecon_total : List_ratrecon_total.
+Proof.
+  intros T D OK kthr sthr Hk Hs P M dk fr Hdk.
+  pose proof (l_ratrecon_total D OK kthr sthr Hk Hs P M dk Hdk) as H.
+  assert (H5 : lratrecon5 D kthr sthr P M dk <> None).
+  { unfold lratrecon5. destruct (pratrecon (LOps D kthr sthr) P M dk) as [[[ok N] Dn]|]; [discriminate|congruence]. }
+  assert (HC : lratreconcheck D kthr sthr P M dk <> None).
+  { unfold lratreconcheck, pratreconcheck_g. destruct (pratrecon (LOps D kthr sthr) P M dk) as [[[ok N] Dn]|]; [|congruence].
+    destruct (_ >? 0); [discriminate|]. destruct (pleadone _ _); discriminate. }
+  split; [exact H5|]. split; [exact HC|].
+  unfold lratrecon6, pratrecon6_g. destruct fr; [exact HC|exact H5].
+Qed.
+
+(* ------------------------------------------------------------------ END TO END: the functions that are extracted and run.
+   zp_ratrecon5 / zp_ratreconcheck / zp_ratrecon6 (PolyModel.v) compute over C08.Fp.FpDom q, the subset type of canonical residues,
+   for which FieldOK is proved when q is prime (C08.ProofsFp.FpDom_ok): the list theorems apply verbatim.  For every prime q,
+   every threshold >= 1, all integer coefficient lists P, M (injected by z -> z mod q), every 0 <= dk < deg M: a success of the
+   executed function returns lists of canonical residues N, D that are the images of polynomials N', D' over F_q with
+   N' - D' P = C M coefficientwise, deg N' <= dk, D' <> 0. *)
+Definition canonical (q : positive) (L : list Z) : Prop := Forall (fun z => 0 <= z < Zpos q) L.
+Lemma outl_canonical q (L : list (Fp q)) : canonical q (outl L).
+Proof. unfold canonical, outl. apply Forall_forall. intros z Hz. apply in_map_iff in Hz. destruct Hz as (a & <- & _). apply fv_range. Qed.
+
+Definition fp_post (q : positive) (P M : list Z) (dk : Z) (N Dn : list Z) : Prop :=
+  canonical q N /\ canonical q Dn /\
+  exists N' D' : list (Fp q), N = outl N' /\ Dn = outl D' /\
+    (exists C, peq (FpDom q) (sub (FpDom q) N' (pmul (FpDom q) D' (map (mk q) P))) (pmul (FpDom q) C (map (mk q) M))) /\
+    degree (FpDom q) N' <= dk /\ ~ peq (FpDom q) D' [].
+
+Lemma fout_post q (r : option (bool * list (Fp q) * list (Fp q))) (Post : list (Fp q) -> list (Fp q) -> Prop) N Dn :
+  (forall N' D', r = Some (true, N', D') -> Post N' D') ->
+  fout r = Some (true, N, Dn) ->
+  canonical q N /\ canonical q Dn /\ exists N' D', N = outl N' /\ Dn = outl D' /\ Post N' D'.
+Proof.
+  intros H. destruct r as [[[ok N'] D']|]; [|discriminate]. cbn [fout].
+  intros R; inversion R; subst ok N Dn.
+  split; [apply outl_canonical|]. split; [apply outl_canonical|]. exists N', D'. repeat split. apply H. reflexivity.
+Qed.
+
+Definition Fp_ratrecon_sound : Prop :=
+  forall q : positive, prime (Zpos q) -> forall kthr sthr : nat, (1 <= kthr)%nat ->
+  forall (P M : list Z) (dk : Z) (N Dn : list Z), 0 <= dk < degree (FpDom q) (map (mk q) M) ->
+    (zp_ratrecon5 (Zpos q) kthr sthr P M dk = Some (true, N, Dn) \/
+     zp_ratreconcheck (Zpos q) kthr sthr P M dk = Some (true, N, Dn) \/
+     exists fr, zp_ratrecon6 (Zpos q) kthr sthr P M dk fr = Some (true, N, Dn)) ->
+    fp_post q P M dk N Dn.
+Lemma fp_ratrecon_sound : Fp_ratrecon_sound.
+Proof.
+  intros q PR kthr sthr Hk P M dk N Dn Hdk H.
+  pose proof (FpDom_ok q PR) as OK.
+  unfold fp_post.
+  assert (G : forall r, (forall N' D', r = Some (true, N', D') ->
+                (exists C, peq (FpDom q) (sub (FpDom q) N' (pmul (FpDom q) D' (map (mk q) P))) (pmul (FpDom q) C (map (mk q) M))) /\
+                degree (FpDom q) N' <= dk /\ ~ peq (FpDom q) D' []) ->
+              fout r = Some (true, N, Dn) ->
+              canonical q N /\ canonical q Dn /\ exists N' D', N = outl N' /\ Dn = outl D' /\
+                (exists C, peq (FpDom q) (sub (FpDom q) N' (pmul (FpDom q) D' (map (mk q) P))) (pmul (FpDom q) C (map (mk q) M))) /\
+                degree (FpDom q) N' <= dk /\ ~ peq (FpDom q) D' []).
+  { intros r Hr E. exact (fout_post q r _ N Dn Hr E). }
+  destruct H as [H|[H|[fr H]]]; revert H; unfold zp_ratrecon5, zp_ratreconcheck, zp_ratrecon6, FD, inl; cbn [qof]; apply G; intros N' D' E.
+  - exact (list_ratrecon_sound _ (FpDom q) OK kthr sthr Hk _ _ dk N' D' Hdk E).
+  - exact (list_ratrecon6_sound _ (FpDom q) OK kthr sthr Hk _ _ dk N' D' Hdk (or_introl E)).
+  - exact (list_ratrecon6_sound _ (FpDom q) OK kthr sthr Hk _ _ dk N' D' Hdk (or_intror (ex_intro _ fr E))).
+Qed.
+
+(* ... and they never run out of fuel *)
+Definition Fp_ratrecon_total : Prop :=
+  forall q : positive, prime (Zpos q) -> forall kthr sthr : nat, (1 <= kthr)%nat -> (1 <= sthr)%nat ->
+  forall (P M : list Z) (dk : Z) (fr : bool), 0 <= dk ->
+    zp_ratrecon5 (Zpos q) kthr sthr P M dk <> None /\ zp_ratreconcheck (Zpos q) kthr sthr P M dk <> None /\
+    zp_ratrecon6 (Zpos q) kthr sthr P M dk fr <> None.
+Lemma fp_ratrecon_total : Fp_ratrecon_total.
+Proof.
+  intros q PR kthr sthr Hk Hs P M dk fr Hdk.
+  destruct (list_ratrecon_total _ (FpDom q) (FpDom_ok q PR) kthr sthr Hk Hs (map (mk q) P) (map (mk q) M) dk fr Hdk) as (A & B & C).
+  unfold zp_ratrecon5, zp_ratreconcheck, zp_ratrecon6, FD, inl; cbn [qof].
+  repeat split.
+  - destruct (lratrecon5 _ _ _ _ _ _) as [[[? ?] ?]|]; [discriminate|congruence].
+  - destruct (lratreconcheck _ _ _ _ _ _) as [[[? ?] ?]|]; [discriminate|congruence].
+  - destruct (lratrecon6 _ _ _ _ _ _ _) as [[[? ?] ?]|]; [discriminate|congruence].
+Qed.
+
+(* the executed instance computes, and its hypotheses are satisfiable: q = 7 (C08.ProofsFp.prime_7), M = X^2 + 1, P = 3 + 2X, dk = 0 *)
+Example fp_example :
+  prime 7 /\ (0 <= 0 < degree (FpDom 7) (map (mk 7) [1; 0; 1])) /\
+  exists N Dn, zp_ratrecon5 7 50 50 [3; 2] [1; 0; 1] 0 = Some (true, N, Dn).
+Proof. split; [exact prime_7|]. split; [vm_compute; split; [discriminate|reflexivity]|]. eexists; eexists. vm_compute. reflexivity. Qed.
